@@ -38,3 +38,15 @@ Proof. unfold rlen. rewrite take_snd, skipn_length. reflexivity. Qed.
 
 Lemma take_length r n : List.length (fst (take r n)) = Nat.min n (rlen r).
 Proof. unfold rlen. rewrite take_fst, firstn_length. reflexivity. Qed.
+
+Lemma skipn_skipn' {A} : forall (x y : nat) (l : list A), skipn x (skipn y l) = skipn (y + x) l.
+Proof.
+  intros x y. induction y as [|y IH]; intros l; [reflexivity|].
+  destruct l as [|a l]; [now rewrite !skipn_nil|]. cbn [skipn Nat.add]. apply IH.
+Qed.
+
+Lemma firstn_add {A} : forall (a b : nat) (l : list A), firstn (a + b) l = firstn a l ++ firstn b (skipn a l).
+Proof.
+  induction a as [|a IH]; intros b l; [reflexivity|].
+  destruct l as [|x l]; [now rewrite !firstn_nil|]. cbn [Nat.add firstn skipn app]. now rewrite IH.
+Qed.
